@@ -28,40 +28,43 @@ CLAIMED = {
             "control dependence of yields, writer/reader prefix tables, who-may-call, sibling cross-check, key-construction tracing, chain-of-custody of the id prefix", "§3/C04, §9.2"),
     "C06": ("the state-identity argument of Earley termination plus two progress clauses: items admitted to a column have a finite, hash/eq-consistent identity, the "
             "de-duplication cannot be bypassed, the column index strictly advances, a completed scan must have consumed input (unconditional no-progress rejection), "
-            "the upward walk of construct_incomplete_tree takes the earliest waiting item",
+            "the upward walk of construct_incomplete_tree takes the earliest waiting item, every item is completed in its own turn of the column loop (armed while the item identity is not finite)",
             "field-set derivation from __hash__/__eq__ + annotation domains, who-may-write, CFG loop-variant query, guard-conjunct check, first-match idiom recognition", "§3/C06, §9.2"),
     "C07": ("partial: operator tables, raising combination = failure, vacuous truth, lazy == eager, inversion duality, selector dispatch, memo keys distinguish bindings, "
-            "constant-index grammar accessors only where the slot is fixed, a failing comparison never scores as satisfied, quantifier bindings are forwarded and written only into dictionaries the quantifier built itself",
+            "constant-index grammar accessors only where the slot is fixed, a failing comparison never scores as satisfied, quantifier bindings are forwarded and written only into dictionaries the quantifier built itself, expressions are evaluated in one namespace (matches visible in generator expressions / lambdas)",
             "three-way table agreement (lexer literals / converter / Comparison), accumulator obligations on CFG paths, sibling cross-checks, grammar-alternative analysis of ctx.X(k)", "§3/C07, §9.2"),
     "C08": ("'never silently altered or dropped': every parser rule that can reach the translator's default child-aggregator is transparent, "
             "every operator token maps to CPython's own operator class through the handler's own branch, literals are decoded by Python's evaluator, parameter kinds feed the right ast.arguments field, "
-            "ordinal accessors are slot-safe, comparison chains absorbed by an operand are re-joined, a trailing comma makes a tuple",
+            "ordinal accessors are slot-safe, comparison chains absorbed by an operand are re-joined, a trailing comma makes a tuple, executed text inherits no __future__ flag of the executing module, "
+            "f-string text is read from the input stream, optional keyword / operator tokens are consulted, spec text is evaluated in one namespace",
             "dispatch-coverage analysis over the ANTLR grammar and the visitor classes; operator table vs ast._Unparser", "§3/C08, §9.2"),
     "C09": ("partial: codec roles never cross (so str/bytes/bits views agree and do not depend on request order), value payloads are never "
             "mutated behind shared references, value() is an in-order left fold without caching, the bit view has exactly eight characters per byte for every length, TreeValue.append never drops the left operand's pending bits",
             "role-typed flow check over call sites, who-may-write, return-freshness, fold-shape check, length-domain evaluation of the bit rendering", "§3/C09, §9.2"),
     "C10": ("purity of read-only accessors and of operators w.r.t. their input trees (every witness chain), invalidation completeness and writer discipline for memoised fields, identity "
-            "fields, copy completeness, positions looked up by reference, symbol hashes carry the symbol kind",
+            "fields, copy completeness, positions looked up by reference, symbol hashes carry the symbol kind, decorator memos on tree accessors are keyed by everything they read",
             "interprocedural ownership/effect analysis (regions, links, dispatch, save/restore brackets) + CFG post-dominance", "§3/C10, §9.2"),
     "C11": ("partial: memo keys cover every input of the miss path and distinguish bindings, are computed before scopes are mutated, hit paths return copies, what a hit deep-copies is copyable "
-            "(type closure clear of spec globals), lists extended in place come from per-call builders, node-level memos handed out by reference are immutable, quantifiers bind only into dictionaries they own, memoised fitness methods read no re-bindable module state, symbol hashes carry the kind",
+            "(type closure clear of spec globals), lists extended in place come from per-call builders, node-level memos handed out by reference are immutable, quantifiers bind only into dictionaries they own, memoised fitness methods read no re-bindable module state, symbol hashes carry the kind, decorator memos reachable from an evaluation are keyed by everything they read",
             "memo-idiom recognition, def-use key slicing, CFG ordering, field-type-graph reachability, return-freshness", "§3/C11, §9.2"),
     "C12": ("the cache protocol behind history-independent parsing: publish after completion, served trees share nothing with the memo, "
-            "hit path == miss path, per-parse state reset, the key covers every input of the producer (recognised through helper methods as well), values memoised on symbols / grammar nodes / converters do not depend on inputs their slot or key does not cover",
+            "hit path == miss path, per-parse state reset, the key covers every input of the producer (recognised through helper methods as well), values memoised on symbols / grammar nodes / converters do not depend on inputs their slot or key does not cover (decorator memos included)",
             "CFG reachability incl. generator-abandonment edges, reaching definitions, effect summaries, partial evaluation on boolean parameters, key-construction tracing", "§3/C12, §9.2"),
     "C14": ("partial: both front ends embed the same serialized automaton and token tables and agree with the .g4 sources; every lexer hook "
             "exists on both sides with the same state update; the hand-written layout algorithm (NEWLINE/INDENT/DEDENT decisions, indentation arithmetic) agrees between "
-            "FandangoLexerBase.cpp and FandangoLexerBase.py",
+            "FandangoLexerBase.cpp and FandangoLexerBase.py, and so does the end-of-input block of nextToken() (position, condition, emitted tokens)",
             "table extraction from generated .py (ast) and .cpp (tokenizer) + grammar reader + a reader for the C++ subset of the lexer base class with a canonical form shared with Python's ast", "§3/C14, §9.2"),
     "C15": ("grouping and bounds survive printing: postfix operands print at symbol level for every class that can occupy the field, "
-            "printers read no re-bindable module state, literals are printed by repr / read by eval, regex source is rewritten only escape-aware",
-            "abstract interpretation of format_as_spec over string shapes against the precedence read from FandangoParser.g4; purity closure; structure of substitution patterns (re._parser)", "§3/C15, §9.2"),
+            "printers read no re-bindable module state, literals are printed by repr / read by eval, regex source is rewritten only escape-aware, no printer is memoised by a key that misses what it reads, "
+            "what the printers of searches and constraints emit is derivable from the reader's grammar for every class the reader can put into each field, expression text is printed through its placeholder map",
+            "abstract interpretation of format_as_spec over string shapes against the precedence read from FandangoParser.g4; purity closure; structure of substitution patterns (re._parser); "
+            "symbolic evaluation of printers to token templates + abstract interpretation of the reader over class sets + Earley recognition of sentential forms of the g4 grammar", "§3/C15, §9.2"),
     "C16": ("partial: generator output is sealed at every Grammar.generate site before it is attached or returned, a misfit raises, regeneration or source clearing on every replaced-source "
-            "path, operators pick only writable targets, the substitution guard protects the replaced node, the read-only mark is removed only from fresh trees, parsed text is not installed "
+            "path (a swallowed failure of the regeneration counts as a skipped one), operators pick only writable targets, the substitution guard protects the replaced node, the read-only mark is removed only from fresh trees, parsed text is not installed "
             "into generator symbols (known finding)",
             "CFG must-pass-through, guard conjunct check, provenance of candidate lists, freshness of unsealed receivers", "§3/C16, §9.2"),
     "C17": ("inventory of non-reproducible sources (time, uuid, id(), os.urandom, unordered iteration over elements whose hash depends on identity - directly or through a hashed attribute) reachable "
-            "from the public API; each frozen with its reason, seed dominates first draw, the seed is tested for presence and never for truth on its way from the command line",
+            "from the public API; each frozen with its reason, seed dominates first draw, the seed is tested for presence and never for truth (if / or / not / conditional expression) on its way from the command line",
             "call-graph reachability + taint to control decisions + class-table hash classification + guard-shape check", "§3/C17, §9.2"),
     "C18": ("inventory of state that outlives an instance (module globals re-bound from functions, class-level containers, mutable defaults, default arguments that are objects with written fields) "
             "with writer and reader both reachable from the public API",
@@ -73,7 +76,7 @@ CLAIMED = {
             "the equivalence with the message language itself is not decided",
             "visitor exhaustiveness + stack-depth dataflow over the CFG + canonical-form comparison of bound tests + branch/return shape checks", "§5, §9.2"),
     "C20": ("partial: lock discipline on the receive buffer, thread-side effects append-only, atomic in-order queuing, acceptance discipline "
-            "of _generate_io, the recorded history is sealed before a packet is mounted on it, the buffer is trimmed to the accepted parse's own fragment index",
+            "of _generate_io, the recorded history is sealed before a packet is mounted on it, the buffer is trimmed to the accepted parse's own fragment index, the fragment scanner returns positions of the buffer it was given, a re-parsed history is adopted only if type, sender and recipient of every message agree",
             "AST region check + call-graph reachability from thread entries + CFG path queries + def-use provenance", "§3/C20, §9.2"),
 }
 
